@@ -175,6 +175,14 @@ class G:
         if k == 'obj': return {self.field(): self.expr(where, depth + 1)}
         if k == 'dfs': return {'$dateFromString': {'dateString': self.s_string(where + '.dateString')}}
 
+    def expr_nolit(self, where, depth=0):
+        """an expression that is not a bare scalar literal (argument positions the tool reads as a field path / name)"""
+        for _ in range(20):
+            e = self.expr(where, depth)
+            if isinstance(e, dict) and not any(k in e for k in ('$date', '$oid', '$binary', '$numberLong', '$uuid')): return e
+            if isinstance(e, str) and e.startswith('$'): return e
+        return self.fieldref()
+
     # ---------- updates ----------
     def update_doc(self, where, depth=0):
         if self.r.random() < 0.2:
@@ -227,11 +235,11 @@ class G:
         if k == '$unwind': return {'$unwind': self.fieldref()}
         if k == '$unwindobj': return {'$unwind': {'path': self.fieldref(), 'preserveNullAndEmptyArrays': True}}
         if k == '$count': return {'$count': self.name()}
-        if k == '$sortByCount': return {'$sortByCount': self.expr(w, depth + 1)}
+        if k == '$sortByCount': return {'$sortByCount': self.expr_nolit(w, depth + 1)}
         if k == '$unset': return {'$unset': self.r.choice([self.field(), [self.field(), self.field()]])}
-        if k == '$replaceRoot': return {'$replaceRoot': {'newRoot': self.expr(w, depth + 1)}}
+        if k == '$replaceRoot': return {'$replaceRoot': {'newRoot': self.expr_nolit(w, depth + 1)}}
         if k == '$replaceWith': return {'$replaceWith': self.expr(w, depth + 1)}
-        if k == '$bucket': return {'$bucket': {'groupBy': self.expr(w, depth + 1), 'boundaries': [self.s_number(w), self.s_number(w)], 'default': self.s_string(w + '.default'), 'output': {self.name(): {'$sum': RawNum('1')}}}}
+        if k == '$bucket': return {'$bucket': {'groupBy': self.expr_nolit(w, depth + 1), 'boundaries': [self.s_number(w), self.s_number(w)], 'default': self.s_string(w + '.default'), 'output': {self.name(): {'$sum': RawNum('1')}}}}
         if k == '$bucketAuto': return {'$bucketAuto': {'groupBy': self.expr(w, depth + 1), 'buckets': RawNum('5')}}
         if k == '$redact': return {'$redact': {'$cond': [self.expr(w, depth + 1), '$$KEEP', '$$PRUNE']}}
         if k == '$geoNear': return {'$geoNear': {'near': {'type': 'Point', 'coordinates': [self.s_number(w), self.s_number(w)]}, 'distanceField': self.name(), 'maxDistance': self.s_number(w), 'query': self.filter(w + '.query', depth + 1), 'spherical': True}}
